@@ -43,7 +43,8 @@ func liveSessions(m *Model) []*MSession {
 }
 
 // dropConflicting removes component updates whose (type, entity) key already
-// has a pending update from ANOTHER connection of the same session: which of
+// has a pending update from ANOTHER connection (of any session: it may switch
+// before the next frame): which of
 // two writers of one key is processed last within a frame is the server's free
 // choice (both orders are legitimate), so the model cannot name one outcome.
 func dropConflicting(m *Model, evs []Ev) []Ev {
@@ -54,7 +55,7 @@ func dropConflicting(m *Model, evs []Ev) []Ev {
 			key := "c:" + itoa(m.TypeID(c, e.X, e.Raw)) + ":" + itoa(m.EntityID(c, e.Y, e.Raw))
 			conflict := false
 			for _, o := range m.Conns {
-				if o != c && o.Open && o.Sess == c.Sess && c.Sess != nil {
+				if o != c && o.Open {
 					if _, ok := o.Pending[key]; ok {
 						conflict = true
 					}
@@ -264,6 +265,95 @@ func init() {
 					}
 				} else {
 					evs = append(evs, Ev{K: "close", C: 2})
+				}
+			}
+			return evs
+		},
+	})
+}
+
+func init() {
+	// ---- two sessions with coinciding ids (C03) ---------------------------------
+	reg(&Family{
+		Name: "two-sessions", NConn: 4, TagC03: true, Tags: []string{"C03"},
+		Cfg: world.Config{Modules: []string{"vikja", "odal", "dagaz"}},
+		Setup: []Ev{
+			{K: "join", C: 0, X: -1}, {K: "join", C: 1, X: -1}, // S0={c0}, S1={c1}: participant 1 in each
+			{K: "eadd", C: 0, X: 0}, {K: "eadd", C: 1, X: 1}, // entity 1 in each
+			{K: "tadd", C: 0, X: 0}, {K: "tadd", C: 1, X: 0}, // type 1 in each
+			{K: "sub", C: 0, X: 0}, {K: "sub", C: 1, X: 0},
+			{K: "cadd", C: 1, X: 0, Y: 0},
+		},
+		Doc: "S0={c0}, S1={c1} with coinciding participant/entity/type ids (1 in each), a component only in S1; c2 never joined, c3 joins/switches; requests naming raw ids that are valid only in the other session (entity 2, participant 2, type 2), custom messages to foreign participant ids, actions/assets/ground-plane samples, departures and a session id reused after its session ended",
+		Enabled: func(m *Model) []Ev {
+			var evs []Ev
+			if c := m.Conns[0]; c.Open && c.Sess != nil {
+				evs = append(evs,
+					Ev{K: "edel", C: 0, X: 2, Raw: true}, Ev{K: "edel", C: 0, X: 1, Raw: true},
+					Ev{K: "cupd", C: 0, X: 1, Y: 1, Raw: true}, Ev{K: "cdel", C: 0, X: 1, Y: 1, Raw: true}, Ev{K: "clist", C: 0, X: 1, Raw: true},
+					Ev{K: "custom", C: 0, X: 3}, Ev{K: "custom", C: 0, X: 0},
+					Ev{K: "action", C: 0, X: 2, Y: 0, Z: 1, Raw: true}, Ev{K: "action", C: 0, X: 1, Y: 0, Z: 1, Raw: true},
+					Ev{K: "asset", C: 0, X: 2, Y: 1, Raw: true}, Ev{K: "asset", C: 0, X: 1, Y: 1, Raw: true},
+					Ev{K: "pose", C: 0, X: 2, Raw: true}, Ev{K: "pose", C: 0, X: 1, Raw: true},
+					Ev{K: "quad", C: 0, X: 0}, Ev{K: "region", C: 0},
+					Ev{K: "close", C: 0})
+				for _, s := range m.Sessions {
+					if s.Live && s != c.Sess {
+						evs = append(evs, Ev{K: "join", C: 0, X: s.Tok})
+					}
+				}
+			}
+			if c := m.Conns[1]; c.Open && c.Sess != nil {
+				evs = append(evs, Ev{K: "eadd", C: 1, X: 0}, Ev{K: "region", C: 1}, Ev{K: "quad", C: 1, X: 1}, Ev{K: "cupd", C: 1, X: 0, Y: 0}, Ev{K: "close", C: 1})
+			}
+			if c := m.Conns[2]; c.Open && c.Sess == nil {
+				evs = append(evs, Ev{K: "custom", C: 2, X: 0}, Ev{K: "edel", C: 2, X: 1, Raw: true}, Ev{K: "quad", C: 2, X: 2}, Ev{K: "pose", C: 2, X: 1, Raw: true}, Ev{K: "cupd", C: 2, X: 1, Y: 1, Raw: true})
+			}
+			if c := m.Conns[3]; c.Open {
+				seen := map[string]bool{}
+				for _, s := range m.Sessions {
+					if !seen[s.ID] && (c.Sess == nil || s.ID != c.Sess.ID) {
+						seen[s.ID] = true
+						evs = append(evs, Ev{K: "join", C: 3, X: s.Tok})
+					}
+				}
+				if c.Sess != nil {
+					evs = append(evs, Ev{K: "eadd", C: 3, X: 0}, Ev{K: "custom", C: 3, X: 3}, Ev{K: "close", C: 3}, Ev{K: "region", C: 3})
+				} else if len(m.Sessions) < 3 {
+					evs = append(evs, Ev{K: "join", C: 3, X: -1})
+				}
+			}
+			if anyPending(m) {
+				evs = append(evs, Ev{K: "tick"})
+			}
+			return dropConflicting(m, evs)
+		},
+	})
+	// ---- ground plane at session level (C20 c) -------------------------------------
+	reg(&Family{
+		Name: "groundplane", NConn: 3, Tags: []string{"C20"},
+		Cfg:   world.Config{Modules: []string{"dagaz"}},
+		Setup: []Ev{{K: "join", C: 0, X: -1}},
+		Doc:   "one session, dagaz only: c0 and c1 insert samples on a lattice of disjoint footprints (no merges), c1/c2 join, leave and re-join, everybody queries the whole region",
+		Enabled: func(m *Model) []Ev {
+			var evs []Ev
+			for c := 0; c < 3; c++ {
+				mc := m.Conns[c]
+				if !mc.Open {
+					continue
+				}
+				if mc.Sess == nil {
+					for _, s := range liveSessions(m) {
+						evs = append(evs, Ev{K: "join", C: c, X: s.Tok})
+					}
+					continue
+				}
+				evs = append(evs, Ev{K: "region", C: c})
+				if c < 2 && len(mc.Sess.Quads) < 4 {
+					evs = append(evs, Ev{K: "quad", C: c, X: len(mc.Sess.Quads)})
+				}
+				if c > 0 {
+					evs = append(evs, Ev{K: "close", C: c})
 				}
 			}
 			return evs
